@@ -1,2 +1,3 @@
 -- root of the `SqVerif` library: everything `setup.sh` builds
-import SqVerif.Drive
+import SqVerif.Drive.Topo
+import SqVerif.Props.C17
